@@ -467,6 +467,7 @@ fn worker(me: usize, arena: sync::Arena, prog: Vec<POp>, hid_base: u64) {
         c.last_decrement_by = None;
     }
     drop(arena_box);
+    lock().holders -= 1;
     finish_thread(me);
 }
 
